@@ -332,6 +332,14 @@ def opSensor (st : St) (op : String) (a : KV) : St × String :=
     let k := match a.str "kind" "file" with | "hwmon" => SensorKind.hwmon | "cmd" => .cmd | _ => .file
     let avg := a.f64 "avg" F64.zero
     ({ st with snKind := k, snAvg := avg, snWin := a.int "win" 10 }, "ok avg=" ++ fmtF avg)
+  | "sn.monitor" =>
+    -- the monitor polls `good` times successfully (one value), then the reads fail for the rest of the run: the average
+    -- moves `good` times and stays; the monitor survives and stops when it is told to
+    let win := a.int "win" 10
+    let v := a.f64 "val" F64.zero
+    let good := (a.int "good" 3).toNat
+    let avg := (List.range good).foldl (fun acc _ => (updateSensor win acc .cmd (.parsed v)).1) (a.f64 "avg" F64.zero)
+    (st, "res=ok avg=" ++ fmtF avg)
   | "sn.poll" =>
     let (avg', r) := updateSensor st.snWin st.snAvg st.snKind (parseSensorIo st.snKind a)
     let rs := match r with | .ok _ => "ok" | _ => "err"
